@@ -13,11 +13,15 @@ sorted column projection are outside the proxy models; the property is therefore
 from __future__ import annotations
 
 META = {
-    "level": "exploration",
-    "engine": "sweep",
-    "technique": "run-time contract sweep (bounded stand-in for deduction): restricted vs full assembly compared through an independent row/column bookkeeping model over enumerated equation / grid / variable subsets",
+    "level": "other",
+    "engine": "pse",
+    "technique": "contract-based deductive verification of the slicing done by the real EquationSystem.assemble (<= 3 equations, each whole or "
+                 "restricted to an arbitrary symbolic row index array, all sizes and entries symbolic; _parse_equations / evaluate / projection_to as "
+                 "modular stubs): A[r, c] = J_e[rowmap(r), colmap(c)], b[r] = -residual_e[rowmap(r)], residual-only path, contiguous "
+                 "assembled_equation_indices, state forwarding, discharged by z3; run-time contract sweep (bounded stand-in): restricted vs full assembly compared through an independent row/column bookkeeping model over enumerated equation / grid / variable subsets",
     "text": "Exploration: every subset and ordering (<= 3) of equation names, every single-equation grid restriction and seeded variable subsets on seeded "
-            "equation systems over three md-grids; exact comparison of sparse matrices and vectors. No obligation is discharged symbolically for this property.",
+            "equation systems over three md-grids; exact comparison of sparse matrices and vectors. Tier Ps: the row/column slicing and block bookkeeping of "
+            "assemble for all sizes (number of equations bounded by 3); the grid -> rows map and block order of _parse_equations are covered by the sweep only.",
     "note": "the full assembly of the same real code is the reference for values; the row/column selection is computed independently from grid sizes and "
             "insertion order; AD evaluation itself is covered by C01/C02",
 }
@@ -199,8 +203,163 @@ def _sweep(rep, pp):
                     check(f"variables by {'name' if isinstance(spec, str) else 'md-variable'}", {"variables": [spec]}, [r for n in sysorder for r in _rows_of(pp, eqs, sysorder, n)], cols, sysorder)
 
 
+def _scalar_equations(rep, pp):
+    """equations that evaluate to a scalar (set_equation with grids=[]): one row each; residual-only assembly equals the residual of
+    the Jacobian assembly, alone and next to array-valued equations, in every order"""
+    with rep.sweep("scalar-valued equations", rule="systems with one array-valued equation on all cells and one or two scalar-valued equations (grids=[]), every "
+                   "order of setting them and every non-empty selection / order of names; residual-only assembly vs Jacobian assembly",
+                   bound="2x2 Cartesian grid, <= 3 equations", exhaustive=True) as sw:
+        for order in itertools.permutations(("arr", "s1", "s2")):
+            g = pp.CartGrid([2, 2])
+            g.compute_geometry()
+            mdg = pp.MixedDimensionalGrid()
+            mdg.add_subdomains(g)
+            es = pp.ad.EquationSystem(mdg)
+            x = es.create_variables("x", subdomains=[g])
+            es.set_variable_values(np.arange(es.num_dofs()) + 1.0, iterate_index=0)
+            es.set_variable_values(np.arange(es.num_dofs()) + 1.0, time_step_index=0)
+            ops = {"arr": (x * x, [g]), "s1": (pp.ad.Scalar(2.0) * pp.ad.Scalar(3.0), []), "s2": (pp.ad.Scalar(1.0) - pp.ad.Scalar(4.0), [])}
+            for nm in order:
+                op, grids = ops[nm]
+                op.set_name(nm)
+                es.set_equation(op, grids, {"cells": 1})
+            for m in (1, 2, 3):
+                for sel in itertools.permutations(order, m):
+                    sw.case((order, sel), nontrivial=any(s != "arr" for s in sel), sample={"set order": list(order), "selection": list(sel)})
+                    inp = {"set order": list(order), "selection": list(sel)}
+                    try:
+                        with warnings.catch_warnings():
+                            warnings.simplefilter("ignore")
+                            A, b = es.assemble(equations=list(sel))
+                            b0 = es.assemble(evaluate_jacobian=False, equations=list(sel))
+                    except Exception as e:  # noqa
+                        rep.violation("restricted assembly: admissible selections assemble", f"scalar-valued equation raises {type(e).__name__}", inputs=inp, detail=str(e)[:200])
+                        continue
+                    want = {"arr": 4, "s1": 1, "s2": 1}
+                    nrows = sum(want[s] for s in order if s in sel)
+                    if A.shape[0] != nrows or b.shape != (nrows,) or np.shape(b0) != (nrows,) or not np.array_equal(b, b0):
+                        rep.violation("residual-only assembly equals the residual of the Jacobian assembly", "scalar-valued equation", inputs=inp,
+                                      detail=f"A {A.shape}, b {np.shape(b)}, residual-only {np.shape(b0)}")
+
+
 def replay(data):
     return False
+
+
+# ----------------------------------------------------------------------------- tier Ps: the slicing done by assemble
+
+
+def case_assemble(pp, pattern, with_state):
+    """The real EquationSystem.assemble on `len(pattern)` equations (pattern[e] = True: rows restricted to an arbitrary symbolic
+    index array, False: whole equation) of symbolic sizes.  Modular stubs (contracts checked elsewhere): _parse_equations (returns
+    the row blocks in a given order -- the order and the grid -> rows map are covered by the sweep), evaluate (C02: returns one
+    (value, Jacobian) pair per equation, a function of (equation, state)), projection_to (C05: row selection of the sorted dofs of
+    the requested variables)."""
+    import z3
+
+    from engine.arrays import SymArray, SymMat
+    from engine.sym import SymBool, iterm, rterm
+
+    k = len(pattern)
+
+    def run(ctx):
+        N, q = ctx.int("num_dofs"), ctx.int("num_selected_dofs")
+        ctx.assume((N >= 1) & (q >= 0))
+        colmap = z3.Function("colmap", z3.IntSort(), z3.IntSort())
+        g = z3.Int("__c")
+        ctx.add_axiom(z3.ForAll([g], z3.Implies(z3.And(g >= 0, g < q.t), z3.And(colmap(g) >= 0, colmap(g) < N.t)), patterns=[colmap(g)]))
+        names = [f"eq{e}" for e in range(k)]
+        sizes, vals, jacs, rows = [], [], [], []
+        for e in range(k):
+            n = ctx.int(f"n{e}")
+            ctx.assume(n >= 0)
+            sizes.append(n)
+            vals.append(SymArray.fresh(f"val{e}", n, "real"))
+            jacs.append(SymMat.fresh(f"jac{e}", n, N))
+            if pattern[e]:
+                m = ctx.int(f"m{e}")
+                ctx.assume(m >= 0)
+                R = SymArray.fresh(f"rows{e}", m, "int")
+                kk = z3.Int("__kr")
+                ctx.add_axiom(z3.ForAll([kk], z3.Implies(z3.And(kk >= 0, kk < m.t), z3.And(R._elem(kk) >= 0, R._elem(kk) < n.t)), patterns=[R._elem(kk)]))
+                rows.append(R)
+            else:
+                rows.append(None)
+        es = pp.ad.EquationSystem.__new__(pp.ad.EquationSystem)
+        es._equations = {nm: ("operator", nm) for nm in names}
+        es._variables = {}
+        es.assembled_equation_indices = {"stale": None}
+        STATE = object() if with_state else None
+        seen = {}
+        es._parse_equations = lambda equations: {nm: rows[e] for e, nm in enumerate(names)}
+
+        def evaluate(eqs, derivative=True, state=None):
+            seen.setdefault("calls", []).append((tuple(eqs), derivative, state))
+            if derivative:
+                return [pp.ad.AdArray(vals[names.index(op[1])], jacs[names.index(op[1])]) for op in eqs]
+            return [vals[names.index(op[1])] for op in eqs]
+
+        es.evaluate = evaluate
+        es.num_dofs = lambda: N
+        es.projection_to = lambda variables: SymMat.row_selection(q, N, lambda r: colmap(r))
+        A, b = es.assemble(equations=names, variables=["some variables"], state=STATE)
+        b_only = es.assemble(evaluate_jacobian=False, equations=names, variables=["some variables"], state=STATE)
+        ctx.prove("every equation is evaluated at the caller's state, in the order of the parsed blocks",
+                  all(c[0] == tuple(("operator", nm) for nm in names) and c[2] is STATE for c in seen["calls"]) and len(seen["calls"]) == 2)
+        blk = [(iterm(rows[e].n) if pattern[e] else sizes[e].t) for e in range(k)]
+        offs = [z3.IntVal(0)]
+        for e in range(k):
+            offs.append(offs[-1] + blk[e])
+        ctx.prove("shape: rows = sum of the block lengths, columns = number of selected dofs",
+                  SymBool(z3.And(iterm(A.shape[0]) == offs[-1], iterm(A.shape[1]) == q.t, iterm(b.n) == offs[-1], iterm(b_only.n) == offs[-1])))
+        r, c = ctx.int("r"), ctx.int("c")
+        ctx.assume((r >= 0) & (c >= 0) & (c < q))
+        ctx.assume(SymBool(r.t < offs[-1]))
+        for e in range(k):
+            inblk = z3.And(r.t >= offs[e], r.t < offs[e + 1])
+            loc = r.t - offs[e]
+            src = rows[e]._elem(loc) if pattern[e] else loc
+            ctx.prove(f"block {e}: matrix row r is row rowmap(r) of that equation's Jacobian restricted to the selected columns: A[r, c] = J_e[rowmap(r), colmap(c)]",
+                      SymBool(z3.Implies(inblk, A._entry(r.t, c.t) == jacs[e]._entry(src, colmap(c.t)))))
+            ctx.prove(f"block {e}: right-hand side entry r is minus the residual at rowmap(r)", SymBool(z3.Implies(inblk, rterm(b.at(r)) == -vals[e]._elem(src))))
+            ctx.prove(f"block {e}: residual-only assembly gives the same vector", SymBool(z3.Implies(inblk, rterm(b_only.at(r)) == rterm(b.at(r)))))
+            idx = es.assembled_equation_indices.get(names[e])
+            ctx.prove(f"block {e}: assembled_equation_indices is recorded", idx is not None)
+            if idx is not None:
+                t = ctx.int(f"t{e}")
+                ctx.assume((t >= 0))
+                ctx.prove(f"block {e}: assembled_equation_indices is the contiguous row range of the block",
+                          SymBool(z3.And(iterm(idx.n) == blk[e], z3.Implies(t.t < blk[e], idx._elem(t.t) == offs[e] + t.t))))
+        ctx.prove("assembled_equation_indices lists exactly the assembled equations (stale entries removed)", set(es.assembled_equation_indices) == set(names))
+        if k >= 2:
+            ctx.assume(SymBool(z3.And(blk[0] >= 1, blk[1] >= 1)))
+            ctx.prove("CANARY: the second block starts at row 0", SymBool(z3.Implies(r.t == 0, A._entry(r.t, c.t) == jacs[1]._entry(rows[1]._elem(r.t) if pattern[1] else r.t, colmap(c.t)))),
+                      expect_refuted=True)
+        return "ok"
+
+    return run
+
+
+def prove(rep, pp):
+    import itertools as it
+
+    from engine import indexmodels, shims
+    from engine.harness import run_case
+    from porepy.numerics.ad import equation_system as esmod
+
+    rep.under_contract("EquationSystem.assemble [tier Ps: row / column slicing, block offsets, residual-only path; <= 3 equations, all sizes symbolic]")
+    rep.assume("tier Ps stubs: _parse_equations (row blocks given), evaluate (C02), projection_to (C05: row selection with in-range column map)")
+    refuted = []
+    with shims.shadow_builtins([esmod]), shims.numpy_shims(), indexmodels.index_shims():
+        pats = [p for k in (1, 2, 3) for p in it.product((False, True), repeat=k)]
+        if rep.tier == "quick":
+            pats = [p for p in pats if len(p) <= 2] + [(True, False, True), (False, True, True)]
+        for p in pats:
+            rf, _ = run_case(rep, f"assemble[{','.join('restricted' if x else 'whole' for x in p)}]", case_assemble(pp, p, with_state=(sum(p) % 2 == 0)), tier="Ps")
+            refuted += rf
+    rep.trust(*sorted(shims.USED_MODELS))
+    for name, ctx, r in refuted:
+        rep.violation(name, name.split(":")[0], inputs=None, detail=f"z3 counter-model: {r['model']}"[:1500], confirmed=False, solver_output=str(r["model"]))
 
 
 def run(rep):
@@ -209,4 +368,6 @@ def run(rep):
     rep.under_contract("EquationSystem.assemble", "EquationSystem._parse_equations", "EquationSystem._parse_single_equation", "EquationSystem.assembled_equation_indices",
                        "EquationSystem.set_equation (image-space bookkeeping)", "EquationSystem.projection_to (column selection)")
     rep.assume("requires: equation names unique; restricted grids are grids the equation is defined on")
+    prove(rep, pp)
     _sweep(rep, pp)
+    _scalar_equations(rep, pp)
